@@ -29,6 +29,9 @@ func decodeAmmo(cfg *config.AmmoConfig, storage *vs.SourceStorage) ([]*gun.Scena
 	}
 
 	names, size := config.SpreadNames(cfg.Scenarios)
+	if err := config.CheckSpread(names, size); err != nil {
+		return nil, err
+	}
 	result := make([]*gun.Scenario, 0, size)
 	for _, sc := range cfg.Scenarios {
 		a, err := convertScenarioToAmmo(sc, callRegistry)
